@@ -15,7 +15,7 @@
    the correspondence check. *)
 From Coq Require Import ZArith QArith Qround List Bool Lia Lqa Sorted Permutation.
 From LMBase Require Import Res ListX.
-From LMTfm Require Import TfmNum TfmModel TfmSpec TfmProofs TfmScore TfmDist TfmPerm TfmMain TfmRun TfmTotal TfmLink TfmCheck.
+From LMTfm Require Import TfmNum TfmModel TfmSpec TfmProofs TfmScore TfmDist TfmPerm TfmMain TfmRun TfmTotal TfmLink TfmCheck TfmConv.
 Import ListNotations.
 Open Scope Q_scope.
 
@@ -139,7 +139,7 @@ Proof. exact perm_ok_Permutation. Qed.
 Theorem C12_check_sound : forall tol m rows s g pmin pmax,
   c12_check tol m (enum_dy rows) s g pmin pmax = 0%Z <->
   (let q := dy_toQ in
-   q pmin <= q pmax /\ 0 <= q pmin /\ q pmax <= q one_eps20 * q tol /\
+   q pmin <= q pmax /\ 0 <= q pmin /\ q pmax <= 1 /\
    T rows (q s + inject_Z (m + 1) * q g) <= q pmin * q tol /\
    q pmax <= T rows (q s - inject_Z (m + 2) * q g) * q tol).
 Proof. exact c12_check_iff. Qed.
@@ -147,6 +147,13 @@ Proof. exact c12_check_iff. Qed.
 Theorem C12_check_tail : forall cs bg x,
   T (dy_rows cs bg) x == tailS (map (map dy_toQ) cs) (map dy_toQ bg) x.
 Proof. exact T_tailS. Qed.
+
+(* For wide motifs the exact reference is computed by a convolution that merges equal scores
+   ([conv_dy], linear merges of sorted tables) instead of enumerating all K^M words: the
+   checker gives the same verdict on both. *)
+Theorem C12_check_conv : forall tol m rows s g pmin pmax,
+  c12_check tol m (conv_dy rows) s g pmin pmax = c12_check tol m (enum_dy rows) s g pmin pmax.
+Proof. exact c12_check_conv. Qed.
 
 (* ---------- statement pins ---------- *)
 Check C12_pvalue_step_bounds : forall rows perm bg K g score it,
